@@ -81,7 +81,8 @@ func ipSpec(ip net.IP) string {
 }
 
 // the main VCL of a cell interpreter: backends b0 b1 and the ACLs used by the request
-const cellBackends = "backend b0 { .host = \"localhost\"; .port = \"80\"; }\nbackend b1 { .host = \"localhost\"; .port = \"81\"; }\n"
+const cellBackends = "backend b0 { .host = \"localhost\"; .port = \"80\"; }\nbackend b1 { .host = \"localhost\"; .port = \"81\"; }\n" +
+	"director d0 random { .quorum = 50%; { .backend = b0; .weight = 1; } { .backend = b1; .weight = 1; } }\n"
 
 func aclDeclText(name, entries string) string {
 	var sb strings.Builder
@@ -177,6 +178,8 @@ func (c cellVal) inject(ip *interpreter.Interpreter, v value.Value) error {
 				return err
 			}
 			t.Value = bv.(*value.Backend).Value
+			t.Director = bv.(*value.Backend).Director
+			t.Healthy = bv.(*value.Backend).Healthy
 		}
 	case *value.Acl:
 		av, err := ip.ProcessExpression(&ast.Ident{Value: unhex(c.parts[0]), Meta: &ast.Meta{}})
@@ -247,10 +250,10 @@ func showVal(v value.Value) string {
 		}
 		return "P:" + ipSpec(t.Value) + ":" + b01s(t.IsNotSet)
 	case *value.Backend:
-		if t.Value == nil {
+		if t.Value == nil && t.Director == nil {
 			return "K:nil"
 		}
-		return "K:" + hex.EncodeToString([]byte(t.Value.Name.Value))
+		return "K:" + hex.EncodeToString([]byte(t.String()))
 	case *value.Acl:
 		if t.Value == nil {
 			return "A:nil"
